@@ -202,6 +202,29 @@ def run(ck, replay=None):
         known = [f for f in load_known().get('findings', []) if f.get('property') == 'C09' and f.get('id') == 'F4']
         wstate = {}
 
+        k10 = [f for f in load_known().get('findings', []) if f.get('property') == 'C09' and f.get('id') == 'F10']
+        w10 = {}
+
+        def known_f10(t, ratio, sep):
+            """F10 (near-defective pair): classifier on this case + the listed witness must still fail"""
+            if not k10:
+                return False
+            sq = {'float': 2.0 ** -11.5, 'double': 2.0 ** -26, 'ldouble': 2.0 ** -31.5}[t[1]]
+            if not (sep < 1e3 * sq and ratio < 1e4):
+                return False
+            if 'ok' not in w10:
+                rcw, ow = run_lines(exe, [k10[0]['witness']])
+                try:
+                    fw = ow[0].split(); i = fw.index('E'); w10['ok'] = fw[i + 1] != 'throw' and float(fw[i + 1]) > C_E
+                except Exception:
+                    w10['ok'] = False
+            if not w10['ok']:
+                return False
+            msg = 'F10 near-defective eigenvalue pair: eigenvector residual of UpperHessenbergEigen ~1e3 n eps |H| (witness: float, n=57, isolated 2x2 blocks with zero discriminant: 1.29e3 n eps)'
+            if msg not in ck.known_hits:
+                ck.known_hits.append(msg)
+            return True
+
         def known_f4(t, E_, C_E):
             """F4: attributed only if the classifier holds for this case and the listed witness still fails"""
             if not known:
@@ -256,7 +279,8 @@ def run(ck, replay=None):
                 throws['E'] += 1
             else:
                 v = [float(x) for x in E_[:2]]; worst['E'] = max(worst['E'], v[0])
-                if not (v[0] <= C_E): badp.append((l, 'UpperHessenbergEigen: max |H x - lambda x| = %.3g n eps |H|' % v[0]))
+                if not (v[0] <= C_E) and not known_f10(t, v[0], float(E_[4]) if len(E_) > 4 else 1.0):
+                    badp.append((l, 'UpperHessenbergEigen: max |H x - lambda x| = %.3g n eps |H|' % v[0]))
                 if not (v[1] <= 30.0): badp.append((l, 'UpperHessenbergEigen: eigenvector norm differs from 1 by %.3g n eps' % v[1]))
                 if E_[2] != '1': badp.append((l, 'value conventions broken: real values with zero imaginary part, complex ones as adjacent exact conjugates, positive imaginary part first'))
                 if E_[3] != '1': badp.append((l, 'UpperHessenbergEigen returned NaN'))
